@@ -95,6 +95,9 @@ def run (kv : List (String × String)) : IO Res := do
       if e ≤ killedAt && tree.any (·.startsWith label) then
         return .propfail s!"the target died after directory entry {killedAt}: {label} is listed although that step had completed before (list: {tree})" tags
     tags := "killed.checked" :: tags
+  | "badlink" =>
+    if !tree.any (·.startsWith "WriteDSODebugStreamFailed") then
+      return .propfail s!"a linker list with a name that is not UTF-8 was not reported (list: {tree})" tags
   | "traced" =>
     if !tree.contains "SuspendThreadsErrors/PtraceAttachError/EPERM" then
       return .propfail "a thread that could not be attached was not reported" tags
